@@ -130,15 +130,25 @@ func (w *c04World) safe(ttl int64) bool {
 	return true
 }
 
-func gC04Listing(ls []c04Listing) string {
+// Coq parses a 19-digit decimal Z literal in ~4 ms but a hex one in ~0.6 ms, and a 32-character
+// string in ~2 ms: times are printed in hex and block hashes as the short names a, b, c (the model
+// uses a hash only as a key; the real hashes are in the JSON description).
+func gT(v int64) string {
+	if v < 0 {
+		return fmt.Sprintf("(-0x%x)", -v)
+	}
+	return fmt.Sprintf("0x%x", v)
+}
+
+func gC04Listing(ls []c04Listing, names map[string]string) string {
 	var vs []string
 	for _, l := range ls {
 		var bs, ts []string
 		for _, b := range l.blocks {
-			bs = append(bs, fmt.Sprintf("B %s %d", gStr(b.hash), b.mtime))
+			bs = append(bs, fmt.Sprintf("B %s %s", gStr(names[b.hash]), gT(b.mtime)))
 		}
 		for _, t := range l.trash {
-			ts = append(ts, fmt.Sprintf("T %s %d %d", gStr(t.hash), t.dead, t.mtime))
+			ts = append(ts, fmt.Sprintf("T %s %s %s", gStr(names[t.hash]), gT(t.dead), gT(t.mtime)))
 		}
 		vs = append(vs, "("+gList(bs)+", "+gList(ts)+")")
 	}
@@ -239,7 +249,7 @@ func c04History(t *testing.T, r *vRand, idx int) (string, map[string]interface{}
 	fuzzy := false
 	sawTrashed, sawUntrash, sawEmptied, sawKept := false, false, false, false
 	nops := 8 + r.Intn(33)
-	// directed prefix for F14 (Untrash over a fresh copy), 1 case in 12
+	// directed prefix for F20 (Untrash over a fresh copy), 1 case in 12
 	var script []string
 	if r.Chance(1, 12) {
 		script = []string{"PUT:0", fmt.Sprintf("ADV:%d", ttlS+37), "DELETE:0", "PUT:0", "UNTRASH:0"}
@@ -307,19 +317,19 @@ func c04History(t *testing.T, r *vRand, idx int) (string, map[string]interface{}
 		switch kind {
 		case "PUT":
 			code = env.do("PUT", "/"+h, bytes.NewReader(datas[bi]), -1, false).Code
-			gop = "Put " + gStr(h)
+			gop = "Put " + gStr(names[h])
 		case "TOUCH":
 			code = env.do("TOUCH", "/"+h, nil, -1, true).Code
-			gop = "Touch " + gStr(h)
+			gop = "Touch " + gStr(names[h])
 		case "GET":
 			code = env.do("GET", "/"+h, nil, -1, false).Code
-			gop = "Get " + gStr(h)
+			gop = "Get " + gStr(names[h])
 		case "DELETE":
 			code = env.do("DELETE", "/"+h, nil, -1, true).Code
-			gop = "Delete " + gStr(h)
+			gop = "Delete " + gStr(names[h])
 		case "UNTRASH":
 			code = env.do("PUT", "/untrash/"+h, nil, -1, true).Code
-			gop = "Untrash " + gStr(h)
+			gop = "Untrash " + gStr(names[h])
 			sawUntrash = true
 		case "EMPTY":
 			for _, m := range env.h.volmgr.writables {
@@ -370,7 +380,7 @@ func c04History(t *testing.T, r *vRand, idx int) (string, map[string]interface{}
 					}
 				}
 				TrashItem(env.h.volmgr, env.quiet, env.cluster, TrashRequest{Locator: ih, BlockMtime: m - w.off*1e9, MountUUID: mount})
-				items = append(items, fmt.Sprintf("I %s %d %s", gStr(ih), m, gStr(mount)))
+				items = append(items, fmt.Sprintf("It %s %s %s", gStr(names[ih]), gT(m), gStr(mount)))
 			}
 			code = 200
 			gop = "TrashList " + gList(items)
@@ -435,7 +445,7 @@ func c04History(t *testing.T, r *vRand, idx int) (string, map[string]interface{}
 		if extra > 0 {
 			tags = append(tags, "stray-files")
 		}
-		steps = append(steps, fmt.Sprintf("(St %d %d %d (%s) %d %s)", lo, now, hi, gop, code, gC04Listing(after)))
+		steps = append(steps, fmt.Sprintf("(St %s %s %s (%s) %d %s)", gT(lo), gT(now), gT(hi), gop, code, gC04Listing(after, names)))
 		descs = append(descs, fmt.Sprintf("%s %s -> %d %s", kind, names[h], code, descC04Listing(after, names)))
 		tags = append(tags, "op="+kind, fmt.Sprintf("%s=%dxx", kind, code/100))
 		before = after
@@ -457,7 +467,7 @@ func c04History(t *testing.T, r *vRand, idx int) (string, map[string]interface{}
 	}
 	term := fmt.Sprintf("{| c_cfg := {| ttl := %d; life := %d; blob_trash := %s |};\n   c_ro := %s; c_uuid := %s; c_init := %s;\n   c_steps := %s |}",
 		ttl, lifeS*1e9, gBool(blobTrash), gList(gro), gList(guu), gList(empty), "[\n    "+strings.Join(steps, ";\n    ")+"]")
-	desc := map[string]interface{}{"index": idx, "volumes": mix, "blob_trash": blobTrash, "lifetime_s": lifeS, "ttl_s": ttlS, "history": descs}
+	desc := map[string]interface{}{"index": idx, "volumes": mix, "hashes": names, "blob_trash": blobTrash, "lifetime_s": lifeS, "ttl_s": ttlS, "history": descs}
 	tags = append(tags, "vols="+mix, fmt.Sprintf("lifetime=%d", lifeS), fmt.Sprintf("blob_trash=%v", blobTrash))
 	if sawTrashed {
 		tags = append(tags, "saw=trashed")
